@@ -15,6 +15,7 @@
 #define NSIM_CONFIG "unknown"
 #endif
 
+static bool all_results = false;
 static double wall () {
 	struct timespec ts;
 	clock_gettime (CLOCK_MONOTONIC, &ts);
@@ -108,6 +109,7 @@ static int worker (const struct nsim_family *fam, uint64_t base, int64_t first, 
 		   const char *outdir, int wid) {
 	Stats st;
 	char path[512];
+	FILE *arf = NULL;
 	snprintf (path, sizeof path, "%s/w%d.viol", outdir, wid);
 	FILE *vf = fopen (path, "a");
 	int64_t idx;
@@ -143,6 +145,11 @@ static int worker (const struct nsim_family *fam, uint64_t base, int64_t first, 
 				  (long long) g.switches, (long long) g.steps);
 			st.samples.push_back (std::string (hdr) + buf);
 		}
+		if (all_results) {
+			if (!arf) { char ap[512]; snprintf (ap, sizeof ap, "%s/w%d.%lld.all", outdir, wid, (long long) first); arf = fopen (ap, "w"); }
+			if (arf) fprintf (arf, "%lld %d %s %s %016llx %lld\n", (long long) idx, o.verdict, rt_class_name (o.viol.cls), o.viol.site[0] ? o.viol.site : "-",
+					  (unsigned long long) o.hash, (long long) o.steps);
+		}
 		if (o.verdict == RV_VIOLATION && vf && nviol_written < 50) {
 			fprintf (vf, "%lld\t%llu\t%s\t%s\t%s\t%016llx\t%s\n", (long long) idx, (unsigned long long) seed, o.viol.prop,
 				 rt_class_name (o.viol.cls), o.viol.site[0] ? o.viol.site : "-", (unsigned long long) o.hash, o.viol.msg);
@@ -152,6 +159,7 @@ static int worker (const struct nsim_family *fam, uint64_t base, int64_t first, 
 		if (g.tainted) { exitcode = 77; idx += stride; break; }
 	}
 	if (vf) fclose (vf);
+	if (arf) fclose (arf);
 	// statistics (appended across restarts of this worker id: one file per incarnation)
 	snprintf (path, sizeof path, "%s/w%d.%lld.json", outdir, wid, (long long) first);
 	write_stats (path, st, nsim_reach_probe);
@@ -391,7 +399,7 @@ static int replay_file (const char *path, bool trace) {
 }
 
 int main (int argc, char **argv) {
-	const char *family = NULL, *outdir = "/tmp/nsim-out", *replay = NULL, *minout = NULL;
+	const char *family = NULL, *outdir = "/tmp/nsim-out", *replay = NULL, *minout = NULL, *merge_dir = NULL;
 	uint64_t seed = 1;
 	long long runs = 1000, one = -1, mini = -1;
 	int workers = 1;
@@ -413,6 +421,8 @@ int main (int argc, char **argv) {
 		else if (a == "--minimise") mini = atoll (next ());
 		else if (a == "--replay-out") minout = next ();
 		else if (a == "--replay") replay = next ();
+		else if (a == "--merge-hashes") merge_dir = next ();
+		else if (a == "--all-results") all_results = true;
 		else if (a == "--policy") g.force_policy = atoi (next ());
 		else if (a == "--b1") g.B1 = atoll (next ());
 		else if (a == "--list-families") listf = true;
@@ -423,6 +433,29 @@ int main (int argc, char **argv) {
 	if (b1 > 0) g.B1 = b1;
 	if (listf) {
 		for (int i = 0; i < nsim_nfamilies; i++) printf ("%s\n", nsim_families[i].name);
+		return 0;
+	}
+	if (merge_dir) {
+		// union of the per-worker sets of trace hashes of non-trivial runs
+		std::vector<uint64_t> all;
+		char cmd[1024];
+		snprintf (cmd, sizeof cmd, "ls %s/*.hashes 2>/dev/null", merge_dir);
+		FILE *ls = popen (cmd, "r");
+		char path[1024];
+		while (ls && fgets (path, sizeof path, ls)) {
+			size_t l = strlen (path);
+			while (l && path[l - 1] == '\n') path[--l] = 0;
+			FILE *hf = fopen (path, "rb");
+			if (!hf) continue;
+			uint64_t buf[4096];
+			size_t n;
+			while ((n = fread (buf, sizeof (uint64_t), 4096, hf)) > 0) all.insert (all.end (), buf, buf + n);
+			fclose (hf);
+		}
+		if (ls) pclose (ls);
+		std::sort (all.begin (), all.end ());
+		size_t distinct = std::unique (all.begin (), all.end ()) - all.begin ();
+		printf ("%zu\n", distinct);
 		return 0;
 	}
 	if (replay) return replay_file (replay, trace);
